@@ -56,15 +56,15 @@ func init() {
 		NontrivialRuleText["C02"], 12000, 300000,
 		[]string{"restarts", "restart_config_changed", "restart_file_end_near_boundary", "restart_file_end_on_boundary", "restarts_after_merge", "batches", "rotations"})
 	crashTech := "deterministic simulation with fault injection: the workload runs once on the journalling disk, then the directory is rebuilt as of every journal position (process crash) and, for a seeded subset, with unsynced file tails cut (power loss); the real Open runs on each image; "
-	meta("C03", "fault_enumeration", crashTech+"recovered dump must equal an allowed prefix state, and the recovered database must stay usable",
+	meta("C03", "fault_enumeration", crashTech+"recovered dump must equal an allowed prefix state, and the recovered database must stay usable (a Put, fresh batches, a clean restart); 30% of the runs crash a database that 2..4 clients were using under the seeded scheduler (incl. a Merge racing one kind of writer): the recovered mapping must result from a real-time-respecting order of a downward-closed set of the begun operations that contains every operation that must have survived",
 		NontrivialRuleText["C03"], 2000, 30000,
 		[]string{"fault_process_crash_images", "fault_power_loss_images", "fault_torn_write_images", "images_ok", "usability_rounds", "rotations", "cc_groups", "cc_merges", "cc_images_with_inflight_ops"},
 		"power loss loses a not-yet-synced tail of a file from the end only (no reordering inside the tail, no sector garbage)")
-	meta("C04", "fault_enumeration", crashTech+"a batch is one mutation of the prefix oracle, so a partial batch equals no allowed state",
+	meta("C04", "fault_enumeration", crashTech+"a batch is one mutation of the prefix oracle, so a partial batch equals no allowed state; 30% of the runs: batches committed by several concurrent clients (incl. next to a Merge), each batch one atomic step of the order searched for",
 		NontrivialRuleText["C04"], 500, 6000,
 		[]string{"fault_process_crash_images", "fault_power_loss_images", "images_ok", "batches", "sync_batches", "rotations", "cc_batches", "cc_merges"},
 		"power loss loses a not-yet-synced tail of a file from the end only")
-	meta("C07", "fault_enumeration", crashTech+"two levels deep for Merge and adoption: every position of the recovery Open is crashed again, then a clean Open",
+	meta("C07", "fault_enumeration", crashTech+"two levels deep for Merge and adoption: every position of the recovery Open is crashed again, then a clean Open; after recovering from a crash inside Merge the history continues with deletes, overwrites, a second Merge and two restarts; half of the runs: a Merge racing concurrent writers under the seeded scheduler, crashed at every journal position",
 		NontrivialRuleText["C07"], 500, 8000,
 		[]string{"fault_process_crash_images", "fault_second_crash_images", "images_ok", "merges", "reopen_after_recovery", "cc_merges", "second_merge_rounds"},
 		"process crash only (the property says 'the process dies')")
@@ -96,7 +96,7 @@ func init() {
 	meta("C10", "exploration", seqTech+"frozen sorted-slice cursor model for iterator sessions",
 		NontrivialRuleText["C10"], 30000, 700000,
 		[]string{"iter_sessions_multi", "iter_seeks", "iter_rewinds", "iter_nexts", "iter_interleaved_writes", "lists", "folds"})
-	meta("C13", "exploration", seqTech+"unsynced-bytes invariants of the journalled disk model evaluated at every return",
+	meta("C13", "exploration", seqTech+"unsynced-bytes invariants of the journalled disk model evaluated at every return; a fifth of the runs: 2..4 concurrent callers under the seeded scheduler, the policy judged per call on the journal (own writes flushed at return; unflushed bytes of returned calls below the threshold; Sync() covers what was written before its call)",
 		NontrivialRuleText["C13"], 20000, 500000,
 		[]string{"always_checks", "threshold_checks", "sync_batch_checks", "all_synced_checks", "rotations_checked", "cc_syncs", "cc_batches"},
 		"for mmap files 'flushed' means covered by an msync issued after the store; msync makes the whole mapping durable")
@@ -108,10 +108,10 @@ func init() {
 		NontrivialRuleText["C15"], 25000, 350000,
 		[]string{"puts", "batch_repeat_key", "gets", "dumps"},
 		"pool-mediated aliasing is made reproducible by the deterministic LIFO replacement of sync.Pool")
-	meta("C17", "exploration", seqTech+"Stat recomputed at every step by scanning the files with the package's own reader",
+	meta("C17", "exploration", seqTech+"Stat recomputed at every step by scanning the files with the package's own reader; 15% of the runs: concurrent clients (puts, deletes, batches, a merge), Stat recomputed at quiescence and after the restart",
 		NontrivialRuleText["C17"], 8000, 100000,
 		[]string{"stat_checks", "batches", "merges", "restarts", "oversized_files_ok", "rotations", "sched_switches"})
-	meta("C18", "exploration", seqTech+"hint entries decoded and compared with a scan of the merged files; hint-path Open vs scan-path Open",
+	meta("C18", "exploration", seqTech+"hint entries decoded and compared with a scan of the merged files; hint-path Open vs scan-path Open; a fifth of the runs: the merge races concurrent writers",
 		NontrivialRuleText["C18"], 8000, 100000,
 		[]string{"hint_checks", "hint_multi_file_output", "hint_vs_scan_opens", "conc_merges"})
 	meta("C16", "exploration", concTech+"parties are in-process opener tasks plus one real child process driven in lock-step over a pipe (the scheduler decides whose turn it is); Open/Close outcomes are checked with porcupine against a single-holder lock model; a janitor task damages and repairs an older data file so that Opens fail after taking the lock; rejected Opens must leave the journal / directory hash unchanged",
@@ -122,7 +122,7 @@ func init() {
 		NontrivialRuleText["C19"], 60000, 1200000,
 		[]string{"dt_commands", "dt_wrongtype_replies", "restarts", "expired_reads", "dt_lpop", "dt_zadd", "dt_hdel", "dt_srem"},
 		"an emptied collection keeps its type (the statement does not say it vanishes)", "a non-string command on a string that expired but was not deleted may answer as on a live string or as on an absent key")
-	meta("C20", "exploration", seqTech+"Backup as a generated step; the copy is opened while the source stays open and compared with the reference map",
+	meta("C20", "exploration", seqTech+"Backup as a generated step (fresh, existing, oddly named destinations and the directory of the previous backup); the copy is opened while the source stays open and compared with the reference map; 30% of the runs: a backup concurrent with writers (and a merge), judged with porcupine",
 		NontrivialRuleText["C20"], 6000, 200000,
 		[]string{"backups", "backups_mmap", "backups_into_older_backup"})
 }
